@@ -25,20 +25,33 @@ def splitPredR (m : UInt16) (b : Option Bytes) (o : PayObs) : Bool :=
   | none => !o.panicked && (o.frags.isEmpty || splitR m [] o)
   | some p => if m == 0 then !o.panicked else splitR m p o
 
-/-- `<mtu> <obytes> <calls>`: the call under test, then the calls the SAME payloader instance has
-    served before it (0 = a fresh instance).  The payloaders are stateless, so the model's answer and
-    the property's demand depend on the call under test only; the earlier calls are in the input so
-    that a failing case shows the whole history. -/
-def rdCallAfter : Rd (UInt16 × Option Bytes) := do
-  let m ← Rd.u16; let b ← Rd.obytes; let _ ← rdCalls; pure (m, b)
+abbrev Call := UInt16 × Option Bytes
 
-/-- `c16.split <mtu> <obytes> <calls> => PayObs`  (the harness runs G711 and G722 under two kinds).
-    `wf`: "MTU >= 1"; nil and empty inputs are inputs of length 0. -/
+/-- `<mtu> <obytes> <calls>`: the call under test, then the calls the SAME payloader instance has
+    served before it (0 = a fresh instance).  The payloaders are stateless, so the model's answer for
+    a call depends on that call only. -/
+def rdCallAfter : Rd (Call × List Call) := do
+  let m ← Rd.u16; let b ← Rd.obytes; let cs ← rdCalls; pure ((m, b), cs)
+
+/-- `PayObs <n> PayObs*`: the observation of the call under test, then those of the earlier calls in
+    order, whose fragments were compared with their snapshots once more after the LAST call. -/
+def rdObsAfter : Rd (PayObs × List PayObs) := do
+  let o ← rdPayObs; let es ← rdPayObsList; pure (o, es)
+
+/-- every call of the history is an (input, MTU) the property quantifies over: the per-call predicate
+    `p` is asked of the call under test and of every earlier call (whose fragments the caller still
+    holds when the later calls are made) -/
+def histPred (p : Call → PayObs → Bool) (c : Call) (cs : List Call) (o : PayObs) (es : List PayObs) : Bool :=
+  p c o && cs.length == es.length && (cs.zip es).all (fun (ce : Call × PayObs) => p ce.1 ce.2)
+
+/-- `c16.split <mtu> <obytes> <calls> => PayObs <n> PayObs*`  (the harness runs G711 and G722 under
+    two kinds).  `wf`: "MTU >= 1"; nil and empty inputs are inputs of length 0. -/
 def split : Handler :=
-  mkHandler rdCallAfter rdPayObs
-    (fun (m, b) => PayObs.ofFrags (Model.g711Payload m b))
-    (fun (m, b) o => splitPredR m b o)
-    (fun (m, _) => m != 0)
+  mkHandler rdCallAfter rdObsAfter
+    (fun (c, cs) => (PayObs.ofFrags (Model.g711Payload c.1 c.2),
+                     cs.map (fun (e : Call) => PayObs.ofFrags (Model.g711Payload e.1 e.2))))
+    (fun (c, cs) (o, es) => histPred (fun c o => splitPredR c.1 c.2 o) c cs o es)
+    (fun (c, _) => c.1 != 0)
 
 /-- Opus: one fragment equal to (and not aliasing) the input — the ownership probes are C16's own
     text here.  For a nil input "one fragment equal to the input" is one empty fragment; no
@@ -49,17 +62,24 @@ def opusPredR (b : Option Bytes) (o : PayObs) : Bool :=
   | some p => Rtp.Pred.C16.opusPay p o
 
 def opusPay : Handler :=
-  mkHandler rdCallAfter rdPayObs
-    (fun (m, b) => PayObs.ofFrags (Model.opusPayload m b))
-    (fun (_, b) o => opusPredR b o)
+  mkHandler rdCallAfter rdObsAfter
+    (fun (c, cs) => (PayObs.ofFrags (Model.opusPayload c.1 c.2),
+                     cs.map (fun (e : Call) => PayObs.ofFrags (Model.opusPayload e.1 e.2))))
+    (fun (c, cs) (o, es) => histPred (fun c o => opusPredR c.2 o) c cs o es)
 
 def rdOpusDe : Rd Rtp.Pred.C16.OpusDeObs := do
   let r ← Rd.resC Rd.bytes
   let h ← Rd.bool; let t0 ← Rd.bool; let t1 ← Rd.bool
   pure { res := r, head := h, tail0 := t0, tail1 := t1 }
 
+/-- `<obytes> <n> obytes*`: the payload under test, then the payloads the SAME OpusPacket decoded
+    before it.  Decoding is per packet: model and property depend on the payload under test only; the
+    history is in the input so that a failing case shows it. -/
+def rdOpusDeIn : Rd (Option Bytes) := do
+  let b ← Rd.obytes; let _ ← Rd.list Rd.obytes; pure b
+
 def opusDe : Handler :=
-  mkHandler Rd.obytes rdOpusDe
+  mkHandler rdOpusDeIn rdOpusDe
     (fun b => { res := (Model.opusUnmarshal b).coarse, head := Model.audioIsPartitionHead b,
                 tail0 := Model.audioIsPartitionTail false b, tail1 := Model.audioIsPartitionTail true b })
     (fun b o => Rtp.Pred.C16.opusDe b o)
